@@ -83,6 +83,20 @@ private def c13Err : PyErr → String
   | .fuel => "unsupported fuel"
   | .unsupported => "unsupported"
 
+/-- the primitives of Py/PrimC13.lean by themselves (`srcc13 [ ] prim_… [ args ]`): compared with the interpreter's own
+    operation on every value kind (harness/srctie_c13.py `prim_lines`) -/
+private def c13Prim (f : String) (a : List PVal) : Option (PyM PVal) :=
+  match f, a with
+  | "prim_replace_first", [s, o, n] => some (pyReplaceFirstC13 s o n)
+  | "prim_findall", [s] => some (reFindallC13 (.str extractPatternC13) s)
+  | "prim_sub", [s] => some (reSubC13 (.str extractPatternC13) (.str []) s)
+  | "prim_json_loads", [x] => some (pyJsonLoadsC13 x)
+  | "prim_json_dumps", [x, i] => some (pyJsonDumpsC13 x i)
+  | "prim_str", [x] => some (pyStrC13 x)
+  | "prim_mk_tag", [n, c, k] => some (pyMkTagC13 n c k)
+  | "prim_call_kw", [k] => some (pyCallKwC13 (fun l => pure (.list l)) [['a'], ['b']] [(['c'], .none), (['d'], .bool false)] k)
+  | _, _ => none
+
 def srcC13Ops : OpTable
   | "srcc13" => some do
     let tbl ← listOf (do
@@ -93,7 +107,7 @@ def srcC13Ops : OpTable
       pure (raw, ok, r, t))
     let f ← next
     let a ← listOf c13PVal
-    match Generated.Src.runByName (c13G tbl) f a with
+    match (match c13Prim f a with | some r => some r | none => Generated.Src.runByName (c13G tbl) f a) with
     | none => pure "unsupported"      -- not translated (left the fragment) or unknown: no verdict
     | some r =>
       match r with
